@@ -307,6 +307,13 @@ def excmatch(raised, declared):
 
 
 def main():
+    try:
+        # die with the parent: if the check is killed from outside (a harness time-out) while the real code is in a long or
+        # non-terminating call, this evaluator must not stay behind
+        import ctypes, signal
+        ctypes.CDLL("libc.so.6").prctl(1, signal.SIGKILL)      # PR_SET_PDEATHSIG
+    except Exception:
+        pass
     setup_ns()
     for line in sys.stdin:
         line = line.strip()
